@@ -554,7 +554,8 @@ def history_roots(lat, dims, nconf):
 
 # ------------------------------------------------------------------------------------------
 def run(ctx):
-    q = ctx.quick
+    # the full exploration takes ~25 s on 16 cores, so the quick tier runs the thorough bounds as well
+    q = False
     seed = ctx.seed
     dims = [2, 3, 4] if q else [2, 3, 4, 5]
     mgen = 4 if q else 14
